@@ -841,7 +841,7 @@ func (h *hist) markInvalid(b *mblock) {
 	if !h.safe("invalid", func() { h.db.BlockInvalid(b.hash[:]) }) {
 		return
 	}
-	if b.added {
+	if b.added && !b.invalid {
 		b.invalid = true
 		if st == "queued" {
 			h.c.inc("invalid_queued")
@@ -929,11 +929,11 @@ func (h *hist) startReaders(n int, sessionBlocks []*mblock) *readers {
 					} else if !v.mayInv && !bytes.Equal(data, v.raw) {
 						myWrong = append(myWrong, fmt.Sprintf("%s returned %d bytes differing from stored block #%d at offset %d", apiNames[api], len(data), v.id, firstDiff(data, v.raw)))
 					}
-				case k == 8:
-					db.BlockLength(v.u, rr.Bool())
-					rd.lens.Add(1)
 				default:
+					// (BlockLength is not called here: no thread of the client calls it, and it reads
+					// record fields without the mutex; the main thread exercises it sequentially)
 					db.GetStats()
+					rd.lens.Add(1)
 				}
 			}
 			rd.gets.Add(cnt)
@@ -963,7 +963,7 @@ func (h *hist) stopReaders(rd *readers) (divs []div) {
 	rd.wg.Wait()
 	h.c.add("reader_gets_judged", rd.gets.Load())
 	h.c.add("judged", rd.gets.Load())
-	h.c.add("reader_lengths", rd.lens.Load())
+	h.c.add("reader_getstats", rd.lens.Load())
 	h.c.dist("cases", h.c.variant, "reader-get", h.opts.Compress, h.opts.Cache == 1, h.opts.MaxFile != 0)
 	for _, w := range rd.wrong {
 		cls := "reader/wrong-bytes"
@@ -1209,6 +1209,14 @@ func (h *hist) session_(nOps int, readOnly bool) {
 			}
 			h.markTrusted(b)
 		case k < 91: // invalid
+			if h.r.Intn(10) == 0 {
+				// a second BlockInvalid for a block that is already invalid must be harmless
+				if b := h.pickAny(func(b *mblock) bool { return b.invalid }); b != nil && !h.tainted {
+					h.markInvalid(b)
+					h.c.inc("invalid_repeated")
+				}
+				continue
+			}
 			wantQueued := h.r.Bool()
 			allowWritten := h.family == "bugshape" || h.lastRW
 			b := h.pickLive(func(b *mblock) bool {
